@@ -91,6 +91,14 @@ M = [
  ('u16x4-mask',     'convolution/u16x4/sse4.rs', 'let ba0_shuffle = _mm_set_epi8(-1, -1, -1, -1, -1, -1, 7, 6, -1, -1, -1, -1, -1, -1, 5, 4);', 'let ba0_shuffle = _mm_set_epi8(-1, -1, -1, -1, -1, -1, 5, 4, -1, -1, -1, -1, -1, -1, 7, 6);', ['C02']),
  ('u16x4-avx2-mask','convolution/u16x4/avx2.rs', '-1, -1, -1, -1, -1, -1, 15, 14, -1, -1, -1, -1, -1, -1, 13, 12,\n        -1, -1, -1, -1, -1, -1, 15, 14, -1, -1, -1, -1, -1, -1, 13, 12,', '-1, -1, -1, -1, -1, -1, 15, 14, -1, -1, -1, -1, -1, -1, 13, 12,\n        -1, -1, -1, -1, -1, -1, 15, 14, -1, -1, -1, -1, -1, -1, 11, 12,', ['C02']),
  ('u16x4-avx2-join','convolution/u16x4/avx2.rs', 'normalizer.clip(rg_buf[1] + rg_buf[3] + half_error),', 'normalizer.clip(rg_buf[1] + rg_buf[2] + half_error),', ['C02']),
+ ('u16x1-avx2-coef', 'convolution/u16x1/avx2.rs', '_mm256_set_epi64x(k[9] as i64, k[8] as i64, k[1] as i64, k[0] as i64);', '_mm256_set_epi64x(k[8] as i64, k[9] as i64, k[1] as i64, k[0] as i64);', ['C02']),
+ ('u16x1-avx2-load', 'convolution/u16x1/avx2.rs', 'simd_utils::loadl_epi64(src_row, x + 4),', 'simd_utils::loadl_epi64(src_row, x + 2),', ['C02']),
+ ('u16x2-avx2-coef', 'convolution/u16x2/avx2.rs', '_mm256_set_epi64x(k[5] as i64, k[5] as i64, k[1] as i64, k[1] as i64);', '_mm256_set_epi64x(k[5] as i64, k[1] as i64, k[5] as i64, k[1] as i64);', ['C02']),
+ ('u8x1-avx2-init',  'convolution/u8x1/avx2.rs', 'let initial = _mm256_set1_epi32(1 << (normalizer.precision() - 4));', 'let initial = _mm256_set1_epi32(1 << (normalizer.precision() - 3));', ['C02']),
+ ('u8x1-avx2-hsum',  'convolution/u8x1/avx2.rs', 'const I: i32 = (2 << 6) | (3 << 4) | 1;', 'const I: i32 = (2 << 6) | (3 << 4) | 2;', ['C02']),
+ ('u8x2-avx2-init3', 'convolution/u8x2/avx2.rs', 'let mut sss256 = _mm256_set1_epi32(1 << (precision - 3));', 'let mut sss256 = _mm256_set1_epi32(1 << (precision - 2));', ['C02']),
+ ('u8x2-avx2-lt16',  'convolution/u8x2/avx2.rs', 'let mut sss = if coeffs.len() < 16 {', 'let mut sss = if coeffs.len() < 8 {', ['C02']),
+ ('u8x2-avx2-sh3',   'convolution/u8x2/avx2.rs', '15, 14, 13, 12, 15, 14, 13, 12, 11, 10, 9, 8, 11, 10, 9, 8,\n        7, 6, 5, 4, 7, 6, 5, 4, 3, 2, 1, 0, 3, 2, 1, 0,', '7, 6, 5, 4, 7, 6, 5, 4, 3, 2, 1, 0, 3, 2, 1, 0,\n        7, 6, 5, 4, 7, 6, 5, 4, 3, 2, 1, 0, 3, 2, 1, 0,', ['C02']),
  ('alpha-list',     'mul_div.rs', 'PixelType::U8x2\n', 'PixelType::U8x3\n', ['C06', 'C07']),
 ]
 
